@@ -607,25 +607,47 @@ inductive Final where
   | outOfFuel
   deriving DecidableEq, Repr
 
+/-- What the accessors of the reader return after the last `read` call: `cids().end`, and the two
+tables behind `player_pos(cid)` / `input(cid)`. -/
+structure Access where
+  cidsEnd : Int
+  players : List (Nat × (Int × Int))
+  inputs : List (Nat × List Int)
+  deriving DecidableEq, Repr
+
+/-- `Reader::new` failed: there is no reader to ask. -/
+def Access.none : Access := ⟨0, [], []⟩
+
+def Reader.access (rd : Reader) : Access := ⟨rd.cidsEnd, rd.players, rd.inputs⟩
+
+/-- `Reader::player_pos(cid)` for a non-negative `cid` (a negative one panics: `assert_usize`) -/
+def Access.playerPos (a : Access) (cid : Nat) : Option (Int × Int) := tGet a.players cid
+
+/-- `Reader::input(cid)` for a non-negative `cid` -/
+def Access.input (a : Access) (cid : Nat) : Option (List Int) := tGet a.inputs cid
+
 structure Output where
   items : List Item
   final : Final
-  /-- `Reader::cids().end` after the last call -/
-  cidsEnd : Int
+  /-- the accessors after the last call -/
+  access : Access
   deriving DecidableEq, Repr
+
+/-- `Reader::cids().end` after the last call -/
+def Output.cidsEnd (o : Output) : Int := o.access.cidsEnd
 
 def Output.cons (it : Item) (o : Output) : Output := { o with items := it :: o.items }
 
 /-- Call `Reader::read` until it returns `Ok(None)` or an error. -/
 def runItems (cfg : Cfg) : Nat → Reader → Buffer → Cb → Output
-  | 0, rd, _, _ => ⟨[], .outOfFuel, rd.cidsEnd⟩
+  | 0, rd, _, _ => ⟨[], .outOfFuel, rd.access⟩
   | fuel + 1, rd, b, c =>
     match rd.read cfg b c with
     | .item it rd' b' c' => (runItems cfg fuel rd' b' c').cons it
-    | .finished rd' => ⟨[], .finished, rd'.cidsEnd⟩
-    | .err e rd' => ⟨[], .err e, rd'.cidsEnd⟩
-    | .cbErr rd' => ⟨[], .cbErr, rd'.cidsEnd⟩
-    | .outOfFuel => ⟨[], .outOfFuel, rd.cidsEnd⟩
+    | .finished rd' => ⟨[], .finished, rd'.access⟩
+    | .err e rd' => ⟨[], .err e, rd'.access⟩
+    | .cbErr rd' => ⟨[], .cbErr, rd'.access⟩
+    | .outOfFuel => ⟨[], .outOfFuel, rd.access⟩
 
 /-- Enough `Reader::read` calls for a stream of `n` bytes: every item kind costs at least one
 byte and leads to at most four calls. -/
@@ -644,13 +666,13 @@ def Env.cfgOf (_env : Env) (v : Int) : Option Cfg :=
 /-- `Reader::new` followed by `read` until the end, for a given callback. -/
 def runCb (env : Env) (c : Cb) : Output :=
   match parseLoop (pHeader env.json) (c.measure + 1) Buffer.empty c with
-  | .err e => ⟨[], .err e, 0⟩
-  | .cbErr => ⟨[], .cbErr, 0⟩
-  | .outOfFuel => ⟨[], .outOfFuel, 0⟩
-  | .ok (.bad e) _ _ => ⟨[], .err (.header e), 0⟩
+  | .err e => ⟨[], .err e, Access.none⟩
+  | .cbErr => ⟨[], .cbErr, Access.none⟩
+  | .outOfFuel => ⟨[], .outOfFuel, Access.none⟩
+  | .ok (.bad e) _ _ => ⟨[], .err (.header e), Access.none⟩
   | .ok (.version v) b c' =>
     match env.cfgOf v with
-    | none => ⟨[], .err .unknownVersion, 0⟩
+    | none => ⟨[], .err .unknownVersion, Access.none⟩
     | some cfg => runItems cfg (readFuel c.rem.length) Reader.empty b c'
 
 /-- … the callback returning the read sizes `ds`.  `total` is the whole file, header included. -/
@@ -749,31 +771,31 @@ def preAll : Nat → Reader → Kind → List Item × PreEnd
 def interp (cfg : Cfg) (rd : Reader) : List Rec → Tail → Output
   | [], tail =>
     match tail with
-    | .afterFinish => ⟨[], .outOfFuel, rd.cidsEnd⟩   -- not reached: the `Finish` record ends `interp` below
-    | .kindEnd => ⟨[], .err .unexpectedEnd, rd.cidsEnd⟩
-    | .kindErr e => ⟨[], .err (.item e), rd.cidsEnd⟩
-    | .outOfFuel => ⟨[], .outOfFuel, rd.cidsEnd⟩
+    | .afterFinish => ⟨[], .outOfFuel, rd.access⟩   -- not reached: the `Finish` record ends `interp` below
+    | .kindEnd => ⟨[], .err .unexpectedEnd, rd.access⟩
+    | .kindErr e => ⟨[], .err (.item e), rd.access⟩
+    | .outOfFuel => ⟨[], .outOfFuel, rd.access⟩
     | .restEnd k =>
       match preAll 4 rd k with
-      | (its, .ready rd') => ⟨its, .err .unexpectedEnd, rd'.cidsEnd⟩
-      | (its, .err e rd') => ⟨its, .err e, rd'.cidsEnd⟩
-      | (its, .stuck) => ⟨its, .outOfFuel, rd.cidsEnd⟩
+      | (its, .ready rd') => ⟨its, .err .unexpectedEnd, rd'.access⟩
+      | (its, .err e rd') => ⟨its, .err e, rd'.access⟩
+      | (its, .stuck) => ⟨its, .outOfFuel, rd.access⟩
     | .restErr k e =>
       match preAll 4 rd k with
-      | (its, .ready rd') => ⟨its, .err (.item e), rd'.cidsEnd⟩
-      | (its, .err e' rd') => ⟨its, .err e', rd'.cidsEnd⟩
-      | (its, .stuck) => ⟨its, .outOfFuel, rd.cidsEnd⟩
+      | (its, .ready rd') => ⟨its, .err (.item e), rd'.access⟩
+      | (its, .err e' rd') => ⟨its, .err e', rd'.access⟩
+      | (its, .stuck) => ⟨its, .outOfFuel, rd.access⟩
   | r :: rs, tail =>
     match preAll 4 rd r.kind with
-    | (its, .stuck) => ⟨its, .outOfFuel, rd.cidsEnd⟩
-    | (its, .err e rd') => ⟨its, .err e, rd'.cidsEnd⟩
+    | (its, .stuck) => ⟨its, .outOfFuel, rd.access⟩
+    | (its, .err e rd') => ⟨its, .err e, rd'.access⟩
     | (its, .ready rd') =>
       match rd'.post r.item with
       | .item it rd'' =>
         let o := interp cfg rd'' rs tail
         { o with items := its ++ it :: o.items }
-      | .finished rd'' => ⟨its, .finished, rd''.cidsEnd⟩
-      | .err e rd'' => ⟨its, .err e, rd''.cidsEnd⟩
+      | .finished rd'' => ⟨its, .finished, rd''.access⟩
+      | .err e rd'' => ⟨its, .err e, rd''.access⟩
 
 /-- What reading the stream `s` (the bytes after the header) yields, independent of any buffer. -/
 def runWhole (cfg : Cfg) (s : List UInt8) : Output :=
@@ -784,12 +806,12 @@ def runWhole (cfg : Cfg) (s : List UInt8) : Output :=
 the header framing is parsed on the complete byte string. -/
 def reference (env : Env) (total : List UInt8) : Output :=
   match pHeader env.json total with
-  | .needMore => ⟨[], .err .unexpectedEnd, 0⟩
-  | .err e => ⟨[], .err (.item e), 0⟩   -- not reached: the header parser has no `err` result
-  | .ok (.bad e) _ => ⟨[], .err (.header e), 0⟩
+  | .needMore => ⟨[], .err .unexpectedEnd, Access.none⟩
+  | .err e => ⟨[], .err (.item e), Access.none⟩   -- not reached: the header parser has no `err` result
+  | .ok (.bad e) _ => ⟨[], .err (.header e), Access.none⟩
   | .ok (.version v) rest =>
     match env.cfgOf v with
-    | none => ⟨[], .err .unknownVersion, 0⟩
+    | none => ⟨[], .err .unknownVersion, Access.none⟩
     | some cfg => runWhole cfg rest
 
 /-! ### The reader before the repair of finding D18 (kept so that the history stays visible)
@@ -820,8 +842,8 @@ def interp (slots : Nat) (cfg : Cfg) (rd : Reader) : List Rec → Tail → Optio
   | [], tail => some (Teehistorian.interp cfg rd [] tail)
   | r :: rs, tail =>
     match preAll 4 rd r.kind with
-    | (its, .stuck) => some ⟨its, .outOfFuel, rd.cidsEnd⟩
-    | (its, .err e rd') => some ⟨its, .err e, rd'.cidsEnd⟩
+    | (its, .stuck) => some ⟨its, .outOfFuel, rd.access⟩
+    | (its, .err e rd') => some ⟨its, .err e, rd'.access⟩
     | (its, .ready rd') =>
       match post slots rd' r.item with
       | none => none
@@ -829,8 +851,8 @@ def interp (slots : Nat) (cfg : Cfg) (rd : Reader) : List Rec → Tail → Optio
         match interp slots cfg rd'' rs tail with
         | none => none
         | some o => some { o with items := its ++ it :: o.items }
-      | some (.finished rd'') => some ⟨its, .finished, rd''.cidsEnd⟩
-      | some (.err e rd'') => some ⟨its, .err e, rd''.cidsEnd⟩
+      | some (.finished rd'') => some ⟨its, .finished, rd''.access⟩
+      | some (.err e rd'') => some ⟨its, .err e, rd''.access⟩
 
 def runWhole (slots : Nat) (cfg : Cfg) (s : List UInt8) : Option Output :=
   let r := parseAll cfg.hasEx (s.length + 1) s
